@@ -281,3 +281,55 @@ func (cx *Ctx) entriesOfModule(mod string, roles ...string) []Entry {
 	}
 	return out
 }
+
+// condFailGuard: somewhere up the chain a branch on a condition containing
+// `subs` (a) rejects (its `rejectWhen` edge leads only to failure exits), (b)
+// can reach the event's site, and (c) is itself dominated by a fact whose text
+// contains condText with polarity condHolds — the same condition under which the
+// event executes (checked by the caller). This is the "two separately written
+// tests of one expression" pairing of DESIGN §6.
+func (w *Walker) condFailGuard(ev *Event, subs []string, rejectWhen bool, condText string, condHolds bool) (string, bool) {
+	var cur ssa.Instruction = ev.Site
+	for f := ev.Fr; f != nil; f = f.Parent {
+		if cur != nil {
+			for _, b := range f.Fn.Blocks {
+				ifi, ok := b.Instrs[len(b.Instrs)-1].(*ssa.If)
+				if !ok || !instrReaches(ifi, cur) {
+					continue
+				}
+				fs := expandCond(ifi.Cond, true, ifi)
+				txt := w.ts.Of(fs[0].Cond, f).LooseString()
+				all := true
+				for _, s := range subs {
+					if !strings.Contains(txt, s) {
+						all = false
+					}
+				}
+				if !all {
+					continue
+				}
+				// which successor is taken when the (un-negated) condition == rejectWhen
+				idx := 0
+				if fs[0].Holds != rejectWhen {
+					idx = 1
+				}
+				if !onlyFailureExits(b.Succs[idx], b) {
+					continue
+				}
+				for _, ft := range w.blockFacts(f, b, 0) {
+					if ft.Holds == condHolds && strings.Contains(ft.Text, condText) && !isOutcomeFact(ft.Text) {
+						return txt + " tested under " + ft.String() + " at " + w.cx.P.Pos(ifi.Pos()), true
+					}
+				}
+			}
+		}
+		if f.Call != nil {
+			cur = f.Call
+		} else if f.MC != nil {
+			cur = f.MC
+		} else {
+			cur = nil
+		}
+	}
+	return "", false
+}
